@@ -17,7 +17,7 @@ for sid in ids:
     meta_path = os.path.join(dst, 'meta.json')
     meta = json.load(open(meta_path)) if os.path.exists(meta_path) else {}
     meta.update(dict(
-        property=sid,
+        property=sid[:3],
         source='independent sub-agent given only the property text and a scratch worktree',
         files_changed=sorted(set(re.findall(r'^\+\+\+ b/(\S+)', open(os.path.join(dst, 'patch.diff')).read(), flags=re.M))),
         validated_by_me=m.group(0) if m else 'not validated',
